@@ -112,9 +112,16 @@ def pow_exact(p, d):
 
 
 # ------------------------------------------------------------------ real library
-def attempt(fn):
+def attempt(fn, point=False):
     try:
-        return {"ok": fn()}
+        v = fn()
+        if point:
+            v = [v.x, v.y, v.z, v.diameter]
+            if all(isinstance(x, (int, float)) and not isinstance(x, bool) for x in v):
+                return {"ok": [float(x) for x in v]}
+        elif isinstance(v, (int, float)) and not isinstance(v, bool):
+            return {"ok": float(v)}
+        return {"err": ["BadResult", "not a float: %.60r" % (v,)]}
     except RecursionError:
         return {"err": ["RecursionError", ""]}
     except Exception as e:  # noqa
@@ -156,11 +163,7 @@ def real_cell(segs, q):
     sys.setrecursionlimit(300)
     try:
         out = {}
-        r = attempt(lambda: cell.get_actual_proximal(q))
-        if "ok" in r:
-            pt = r["ok"]
-            r = {"ok": [pt.x, pt.y, pt.z, pt.diameter]}
-        out["prox"] = r
+        out["prox"] = attempt(lambda: cell.get_actual_proximal(q), point=True)
         out["length"] = attempt(lambda: cell.get_segment_length(q))
         out["volume"] = attempt(lambda: cell.get_segment_volume(q))
         out["area"] = attempt(lambda: cell.get_segment_surface_area(q))
